@@ -743,7 +743,12 @@ class SGen:
         self.uses_op = True
         self.feats.add("literal:promoted")
         red = Call(self.pick(["ReduceSum", "ReduceMax"]), [Var(n)], {"keepdims": 0})
-        return Bin(self.pick(["<", ">", "<=", ">="]), red, Lit(self.literal_for(env[n].dtype)))
+        cmp_ = Bin(self.pick(["<", ">", "<=", ">="]), red, Lit(self.literal_for(env[n].dtype)))
+        if self.chance(2):
+            # `not (a < b)` is not `a >= b` when an operand is NaN (inputs of floating-point programs sometimes carry one)
+            self.feats.add("cond:not_of_comparison")
+            return Un("not", cmp_)
+        return cmp_
 
     # -- statements
     def new_name(self, env):
@@ -1292,7 +1297,11 @@ class GenProgram:
         rng = np.random.default_rng(seed)
         out = []
         for (_, dt, _), s in zip(self.prog.params, self.sample_inputs):
-            out.append(modelgen.make_array(int(rng.integers(0, 2**31 - 1)), DT[dt], s.shape, ["mixed", "edge", "smallint"][int(rng.integers(0, 3))]))
+            a = modelgen.make_array(int(rng.integers(0, 2**31 - 1)), DT[dt], s.shape, ["mixed", "edge", "smallint"][int(rng.integers(0, 3))])
+            if a.dtype.kind == "f" and a.size and (seed // 7) % 4 == 3:
+                a = a.copy()
+                a.flat[int(rng.integers(0, a.size))] = np.nan  # one input tuple in four carries a NaN in every floating-point tensor
+            out.append(a)
         return out
 
 
